@@ -1,10 +1,10 @@
 SPECIFICATION Spec
 CONSTANTS
-  Machine = "log"
+  Machine = "dumps"
   CrashPoints = FALSE
-  RollFaults = TRUE
+  RollFaults = FALSE
   RollKills = FALSE
-  RoomFaults = TRUE
+  RoomFaults = FALSE
   RollDesign = "rename"
   MaxCount = 3
   Limit = 4
@@ -19,11 +19,10 @@ CONSTANTS
   FlushFaults = FALSE
   PreTmp = 0
   MaxDumps = 3
-  ListFaults = FALSE
-  DumpDesign = "cleanup-first"
-  PreDumps = 5
+  ListFaults = TRUE
+  DumpDesign = "write-first"
+  PreDumps = 3
   MaxIds = 12
 CONSTRAINT Bounded
-INVARIANTS TypeOK LogCountBound LogCountRecovered LogCountBoundCrash LogSizeBound LogSizeStrict
-PROPERTIES LogNoGrowthWithoutRoll LogNoGrowthWhileRollFails
+INVARIANTS DumpCountBound
 CHECK_DEADLOCK FALSE
